@@ -1,22 +1,40 @@
+// Harness for C25: wrong passwords are rejected and password changes take effect.
+//
+// Part A (K): the decision function setup_key of the model against the real setupEncryptionKey, driven on real
+//   encrypted documents with every combination of owner-slot / user-slot / command / tampered Perms.
+// Part B (K + O): random histories of api operations (encrypt, decrypt, change user pw, change owner pw, set
+//   permissions; right and wrong credentials; equal, empty, padded-equivalent, long and non-ASCII passwords) on a
+//   small generated PDF, for RC4-40, RC4-128, AES-128, AES-256 (R5) and AES-256 on a PDF 2.0 document (R6).
+//   After every step every candidate password is tried in the owner slot and in the user slot.
+//   K: result classes and the open matrix are compared with the extracted model (coq/C25/Model.v run_report).
+//   O: the property itself, evaluated with the harness's own bookkeeping of the current passwords.
+// Part C (O): the same operations through the *File api (staged output): an error leaves no output file and the
+//   input file untouched.
 package main
 
 import (
 	"bytes"
 	"fmt"
+	"os"
+	"path/filepath"
 	"strings"
 
 	"github.com/pdfcpu/pdfcpu/pkg/api"
 	"github.com/pdfcpu/pdfcpu/pkg/pdfcpu"
 	"github.com/pdfcpu/pdfcpu/pkg/pdfcpu/model"
+	"github.com/pdfcpu/pdfcpu/pkg/pdfcpu/types"
+	"verif/vh"
 )
+
+const title = "verif c25 secret title"
 
 func minimalPDF(v20 bool) []byte {
 	var b bytes.Buffer
-	hdr := "%PDF-1.7\n"
 	if v20 {
-		hdr = "%PDF-2.0\n"
+		b.WriteString("%PDF-2.0\n")
+	} else {
+		b.WriteString("%PDF-1.7\n")
 	}
-	b.WriteString(hdr)
 	offs := []int{}
 	obj := func(s string) {
 		offs = append(offs, b.Len())
@@ -25,17 +43,44 @@ func minimalPDF(v20 bool) []byte {
 	obj("<< /Type /Catalog /Pages 2 0 R >>")
 	obj("<< /Type /Pages /Kids [3 0 R] /Count 1 >>")
 	obj("<< /Type /Page /Parent 2 0 R /MediaBox [0 0 200 200] /Contents 4 0 R /Resources << >> >>")
-	content := "0 0 m 100 100 l S % verif-c25-marker"
+	content := "0 0 m 100 100 l S"
 	obj(fmt.Sprintf("<< /Length %d >>\nstream\n%s\nendstream", len(content), content))
-	obj("<< /Title (verif c25 secret title) /Producer (x) >>")
+	obj("<< /Title (" + title + ") /Producer (x) >>")
 	xref := b.Len()
 	fmt.Fprintf(&b, "xref\n0 %d\n0000000000 65535 f \n", len(offs)+1)
 	for _, o := range offs {
 		fmt.Fprintf(&b, "%010d 00000 n \n", o)
 	}
-	info := " /Info 5 0 R"
-	fmt.Fprintf(&b, "trailer\n<< /Size %d /Root 1 0 R%s /ID [<0123456789abcdef0123456789abcdef> <0123456789abcdef0123456789abcdef>] >>\nstartxref\n%d\n%%%%EOF\n", len(offs)+1, info, xref)
+	fmt.Fprintf(&b, "trailer\n<< /Size %d /Root 1 0 R /Info 5 0 R /ID [<0123456789abcdef0123456789abcdef> <0123456789abcdef0123456789abcdef>] >>\nstartxref\n%d\n%%%%EOF\n", len(offs)+1, xref)
 	return b.Bytes()
+}
+
+type alg struct {
+	name string
+	aes  bool
+	klen int
+	v20  bool
+	rev  int
+}
+
+var algs = []alg{
+	{"RC4-40", false, 40, false, 2},
+	{"RC4-128", false, 128, false, 4},
+	{"AES-128", true, 128, false, 4},
+	{"AES-256", true, 256, false, 5},
+	{"AES-256-PDF2", true, 256, true, 6},
+}
+
+func (a alg) aes256() bool { return a.rev >= 5 }
+
+func (a alg) conf(opw, upw string) *model.Configuration {
+	var c *model.Configuration
+	if a.aes {
+		c = model.NewAESConfiguration(upw, opw, a.klen)
+	} else {
+		c = model.NewRC4Configuration(upw, opw, a.klen)
+	}
+	return c
 }
 
 func guard(f func() error) (err error) {
@@ -47,52 +92,599 @@ func guard(f func() error) (err error) {
 	return f()
 }
 
+// class of an api error, in the vocabulary of the model's outcome type
 func cls(err error) string {
+	if err == nil {
+		return "ok"
+	}
+	if strings.HasPrefix(err.Error(), "PANIC") {
+		return "panic"
+	}
 	c := pdfcpu.VerifC24ErrClass(err)
-	if c == "other" {
-		return "other:" + err.Error()
+	if c == "other" && strings.Contains(err.Error(), "precis:") {
+		return "validate"
 	}
 	return c
 }
 
-func main() {
-	api.DisableConfigDir()
-	for _, v20 := range []bool{false, true} {
-		doc := minimalPDF(v20)
-		for _, a := range []struct {
-			aes bool
-			l   int
-		}{{false, 40}, {false, 128}, {true, 128}, {true, 256}} {
-			for _, pw := range [][2]string{{"own", "usr"}, {"own", ""}, {"same", "same"}, {"my pass", "u"}, {"o", "my pass"}, {"o", "ª"}, {"o", strings.Repeat("x", 130)}, {strings.Repeat("y", 130), "u"}, {"o", strings.Repeat("z", 40)}} {
-				var c *model.Configuration
-				if a.aes {
-					c = model.NewAESConfiguration(pw[1], pw[0], a.l)
-				} else {
-					c = model.NewRC4Configuration(pw[1], pw[0], a.l)
-				}
-				var out bytes.Buffer
-				err := guard(func() error { return api.Encrypt(bytes.NewReader(doc), &out, c) })
-				fmt.Printf("v20=%v aes=%v l=%d opw=%.10q upw=%.10q encrypt: %s\n", v20, a.aes, a.l, pw[0], pw[1], cls(err))
-				if err != nil {
+// codes shared with ocaml/C25_glue.ml (Model.outcome_code)
+var code = map[string]string{"ok": "0", "owner-required": "3", "wrong-password": "4", "invalid-perms": "5",
+	"permission-denied": "6", "validate": "7", "not-encrypted": "8", "encrypted": "9"}
+
+func codeOf(c string) string {
+	if x, ok := code[c]; ok {
+		return x
+	}
+	return "X:" + vh.Hex([]byte(c))
+}
+
+var pad = []byte{0x28, 0xBF, 0x4E, 0x5E, 0x4E, 0x75, 0x8A, 0x41, 0x64, 0x00, 0x4E, 0x56, 0xFF, 0xFA, 0x01, 0x08,
+	0x2E, 0x2E, 0x00, 0xB6, 0xD0, 0x68, 0x3E, 0x80, 0x2F, 0x0C, 0xA9, 0xFE, 0x64, 0x53, 0x69, 0x7A}
+
+func pad32(s string) string {
+	b := append([]byte(s), pad...)
+	return string(b[:32])
+}
+
+// prepared form of a candidate on the reading side (independent restatement of ISO 32000: R<=4 pad/truncate to 32
+// bytes; R>=5 the reader's preparation, truncated to 127 bytes). ok=false: preparation error.
+func rprep(a alg, x string) (string, bool) {
+	if !a.aes256() {
+		return pad32(x), true
+	}
+	p, err := pdfcpu.VerifC24ProcessInput(x)
+	if err != nil {
+		return "", false
+	}
+	if len(p) > 127 {
+		p = p[:127]
+	}
+	return string(p), true
+}
+
+func wstore(a alg, c string) string {
+	if !a.aes256() {
+		return pad32(c)
+	}
+	return c
+}
+
+// x is accepted for current password c
+func accepts(a alg, c, x string) bool {
+	p, ok := rprep(a, x)
+	return ok && p == wstore(a, c)
+}
+
+// defect class for a current password that does not open its own document
+func selfRejectClass(a alg, pw string) string {
+	if a.aes256() {
+		p, err := pdfcpu.VerifC24ProcessInput(pw)
+		if err != nil || string(p) != pw {
+			return "aes256-password-prep-asymmetric"
+		}
+		if len(pw) > 127 {
+			return "aes256-password-over-127-bytes-not-truncated-on-write"
+		}
+	}
+	return "current-password-rejected"
+}
+
+type opener struct {
+	cls     string
+	ctxNil  bool
+	plain   bool
+	content bool
+}
+
+func open(doc []byte, opw, upw string) opener {
+	c := model.NewDefaultConfiguration()
+	c.OwnerPW, c.UserPW = opw, upw
+	c.Cmd = model.LISTINFO
+	var ctx *model.Context
+	err := guard(func() error {
+		var e error
+		ctx, e = api.ReadValidateAndOptimize(bytes.NewReader(doc), c)
+		return e
+	})
+	o := opener{cls: cls(err), ctxNil: ctx == nil}
+	if ctx != nil {
+		o.plain = ctx.E == nil
+		o.content = ctx.PageCount == 1 && ctx.XRefTable.Title == title
+	}
+	return o
+}
+
+// ---------------------------------------------------------------- Part A
+
+func partA(r *vh.Run) {
+	vresOf := func(ok bool, err error) string {
+		if err != nil {
+			return "err"
+		}
+		if ok {
+			return "ok"
+		}
+		return "no"
+	}
+	cmds := []model.CommandMode{model.VALIDATE, model.LISTINFO, model.ROTATE, model.DECRYPT, model.CHANGEUPW, model.CHANGEOPW, model.SETPERMISSIONS}
+	slots := []string{"own", "usr", "bad", "", "my pass", "ª"}
+	for _, a := range algs {
+		for _, perm := range []model.PermissionFlags{model.PermissionsNone, model.PermissionsAll} {
+			c := a.conf("own", "usr")
+			c.Permissions = perm
+			var out bytes.Buffer
+			if err := guard(func() error { return api.Encrypt(bytes.NewReader(minimalPDF(a.v20)), &out, c) }); err != nil {
+				r.OracleFail("encrypt-failed", map[string]any{"alg": a.name}, err.Error())
+				continue
+			}
+			enc := out.Bytes()
+			for _, tamper := range []bool{false, true} {
+				if tamper && !a.aes256() {
 					continue
 				}
-				enc := out.Bytes()
-				for _, try := range [][2]string{{pw[0], ""}, {"", pw[1]}, {"bad", ""}, {"", "bad"}, {"", pw[0]}, {pw[1], ""}, {"", ""}} {
-					c2 := model.NewDefaultConfiguration()
-					c2.OwnerPW, c2.UserPW = try[0], try[1]
-					var ctx *model.Context
-					err := guard(func() error {
-						var e error
-						ctx, e = api.ReadValidateAndOptimize(bytes.NewReader(enc), c2)
-						return e
-					})
-					r := 0
-					if ctx != nil && ctx.E != nil {
-						r = ctx.E.R
+				for _, cmd := range cmds {
+					for _, so := range slots {
+						for _, su := range slots {
+							if !r.Thorough() && r.Rand.Intn(3) != 0 && !(so == "own" || su == "usr") {
+								continue
+							}
+							// fresh context each time (validation mutates ctx)
+							rc := model.NewDefaultConfiguration()
+							rc.OwnerPW = "own"
+							rc.Cmd = model.LISTINFO
+							ctx, err := api.ReadContext(bytes.NewReader(enc), rc)
+							if err != nil || ctx.E == nil {
+								r.OracleFail("read-failed", map[string]any{"alg": a.name}, fmt.Sprint(err))
+								continue
+							}
+							d, err := ctx.EncryptDict()
+							if err != nil {
+								panic(err)
+							}
+							if tamper {
+								pb := append([]byte{}, ctx.E.Perms...)
+								pb[3] ^= 0x55
+								pb[9] ^= 0x01
+								d.Update("Perms", types.NewHexLiteral(pb))
+								if _, err := pdfcpu.VerifC24SupportedEncryption(ctx, d); err != nil {
+									panic(err)
+								}
+							}
+							ctx.Cmd = cmd
+							ctx.OwnerPW, ctx.UserPW = so, su
+							e2, err := pdfcpu.VerifC24SupportedEncryption(ctx, d)
+							if err != nil {
+								panic(err)
+							}
+							e2.ID = ctx.E.ID
+							ctx.E = e2
+							ow := vresOf(pdfcpu.VerifC24ValidateOwnerPassword(ctx))
+							ctx.EncKey = nil
+							us := vresOf(pdfcpu.VerifC24ValidateUserPassword(ctx))
+							ctx.EncKey = nil
+							nb := cmd == model.CHANGEUPW || cmd == model.CHANGEOPW || cmd == model.SETPERMISSIONS
+							hp := true
+							if cmd == model.ROTATE { // Table 22: modify = bit 4 (R2) / bit 11 (R>=3)
+								m := 0x0008
+								if a.rev >= 3 {
+									m = 0x0400
+								}
+								hp = int(perm)&m != 0
+							}
+							be := so == "" && su == ""
+							var serr error
+							perr := guard(func() error { serr = pdfcpu.VerifC24SetupEncryptionKey(ctx, d); return nil })
+							res := cls(serr)
+							if perr != nil {
+								res = "panic"
+							}
+							if res == "ok" {
+								res = "open"
+							}
+							r.Case("setup_key", []string{vh.Bool(nb), ow, us, vh.Bool(!tamper), vh.Bool(be), vh.Bool(hp)}, res)
+							r.Count("A:" + a.name + ":" + res)
+							// O: neither password validates => never opened, and ErrWrongPassword for reading commands
+							if ow != "ok" && us != "ok" {
+								if res == "open" || (!nb && ow == "no" && us == "no" && res != "wrong-password") {
+									r.OracleFail("neither-password-not-rejected", map[string]any{"alg": a.name, "cmd": int(cmd), "opw": so, "upw": su}, res)
+								} else {
+									r.OracleOK()
+								}
+							}
+							if nb && ow != "ok" {
+								if res == "open" {
+									r.OracleFail("change-without-owner", map[string]any{"alg": a.name, "cmd": int(cmd), "opw": so, "upw": su}, res)
+								} else {
+									r.OracleOK()
+								}
+							}
+						}
 					}
-					fmt.Printf("    open o=%.10q u=%.10q: %s ctxnil=%v R=%d\n", try[0], try[1], cls(err), ctx == nil, r)
 				}
 			}
 		}
 	}
+}
+
+// ---------------------------------------------------------------- Part B
+
+type opKind int
+
+const (
+	kEncrypt opKind = iota
+	kDecrypt
+	kChangeUser
+	kChangeOwner
+	kSetPerms
+)
+
+type op struct {
+	kind       opKind
+	opw, upw   string // slots (for change ops: the old password goes in its slot)
+	newpw      string
+	perm       model.PermissionFlags
+}
+
+func (o op) wire(a alg) string {
+	h := func(s string) string { return vh.Hex([]byte(s)) }
+	switch o.kind {
+	case kEncrypt:
+		return fmt.Sprintf("E:%x:%s:%s:%s", a.rev, h(o.opw), h(o.upw), vh.Int(int64(o.perm)))
+	case kDecrypt:
+		return "D:" + h(o.opw) + ":" + h(o.upw)
+	case kChangeUser:
+		return "U:" + h(o.opw) + ":" + h(o.upw) + ":" + h(o.newpw)
+	case kChangeOwner:
+		return "O:" + h(o.upw) + ":" + h(o.opw) + ":" + h(o.newpw)
+	}
+	return "P:" + h(o.opw) + ":" + h(o.upw) + ":" + vh.Int(int64(o.perm))
+}
+
+func apply(a alg, doc []byte, o op) ([]byte, error) {
+	var out bytes.Buffer
+	var err error
+	switch o.kind {
+	case kEncrypt:
+		c := a.conf(o.opw, o.upw)
+		c.Permissions = o.perm
+		err = guard(func() error { return api.Encrypt(bytes.NewReader(doc), &out, c) })
+	case kDecrypt:
+		c := model.NewDefaultConfiguration()
+		c.OwnerPW, c.UserPW = o.opw, o.upw
+		err = guard(func() error { return api.Decrypt(bytes.NewReader(doc), &out, c) })
+	case kChangeUser:
+		c := model.NewDefaultConfiguration()
+		c.OwnerPW = o.opw
+		err = guard(func() error { return api.ChangeUserPassword(bytes.NewReader(doc), &out, o.upw, o.newpw, c) })
+	case kChangeOwner:
+		c := model.NewDefaultConfiguration()
+		c.UserPW = o.upw
+		err = guard(func() error { return api.ChangeOwnerPassword(bytes.NewReader(doc), &out, o.opw, o.newpw, c) })
+	case kSetPerms:
+		c := model.NewDefaultConfiguration()
+		c.OwnerPW, c.UserPW = o.opw, o.upw
+		c.Permissions = o.perm
+		err = guard(func() error { return api.SetPermissions(bytes.NewReader(doc), &out, c) })
+	}
+	return out.Bytes(), err
+}
+
+// the caller's view of the current passwords (mirrors the statement, not the code)
+type ghost struct {
+	enc      bool
+	own, usr string
+}
+
+func (g ghost) after(o op) ghost {
+	switch o.kind {
+	case kEncrypt:
+		return ghost{true, o.opw, o.upw}
+	case kDecrypt:
+		return ghost{}
+	case kChangeUser:
+		if o.opw == "" { // R<=4: the owner slot fell back to the user password; the owner password follows
+			return ghost{true, o.newpw, o.newpw}
+		}
+		return ghost{true, g.own, o.newpw}
+	case kChangeOwner:
+		return ghost{true, o.newpw, g.usr}
+	}
+	return g
+}
+
+var basePW = []string{"", "a", "b", "own", "usr", "é", "pässwörd-ünïcode", "0123456789012345678901234567890123456789", "01234567890123456789012345678901", "a" + string(pad[:31]), string(pad)}
+var defectPW = []string{"my pass", "ª", "ﬁsh", "Á", strings.Repeat("x", 130), "a b", "x y"}
+
+func partB(r *vh.Run) {
+	nHist := r.Pick(36, 400)
+	for _, a := range algs {
+		base := minimalPDF(a.v20)
+		for hi := 0; hi < nHist; hi++ {
+			// password pool of this history
+			pool := []string{""}
+			useDefect := a.aes256() && hi%4 == 3
+			for len(pool) < 4 {
+				var p string
+				if useDefect && r.Rand.Intn(2) == 0 {
+					p = defectPW[r.Rand.Intn(len(defectPW))]
+				} else {
+					p = basePW[r.Rand.Intn(len(basePW))]
+				}
+				dup := false
+				for _, q := range pool {
+					dup = dup || q == p
+				}
+				if !dup {
+					pool = append(pool, p)
+				}
+			}
+			pick := func() string { return pool[r.Rand.Intn(len(pool))] }
+			pickNE := func() string {
+				for {
+					if p := pick(); p != "" {
+						return p
+					}
+				}
+			}
+			n := 1 + r.Rand.Intn(r.Pick(6, 8))
+			doc := base
+			g := ghost{}
+			var wires, implParts []string
+			histDesc := []string{}
+			for si := 0; si < n; si++ {
+				var o op
+				o.perm = []model.PermissionFlags{model.PermissionsNone, model.PermissionsAll, model.PermissionsPrint}[r.Rand.Intn(3)]
+				right := r.Rand.Intn(10) < 6
+				if !g.enc && r.Rand.Intn(10) < 8 {
+					o.kind = kEncrypt
+					o.opw, o.upw = pickNE(), pick()
+					if r.Rand.Intn(12) == 0 {
+						o.opw = ""
+					}
+					if r.Rand.Intn(4) == 0 {
+						o.upw = o.opw
+					}
+				} else {
+					o.kind = []opKind{kChangeUser, kChangeOwner, kSetPerms, kChangeUser, kChangeOwner, kDecrypt, kEncrypt}[r.Rand.Intn(7)]
+					if si < n-1 && o.kind == kDecrypt && r.Rand.Intn(2) == 0 {
+						o.kind = kSetPerms
+					}
+					if right {
+						o.opw, o.upw = g.own, g.usr
+						switch r.Rand.Intn(6) {
+						case 0:
+							o.opw = "" // owner slot empty (works for R<=4 when owner = user)
+						case 1:
+							if o.kind == kDecrypt {
+								o.upw = ""
+							}
+						}
+					} else {
+						o.opw, o.upw = pick(), pick()
+					}
+					o.newpw = pick()
+					if o.kind == kChangeOwner && r.Rand.Intn(8) != 0 && o.newpw == "" {
+						o.newpw = pickNE()
+					}
+				}
+				out, err := apply(a, doc, o)
+				c := cls(err)
+				histDesc = append(histDesc, o.wire(a)+"=>"+c)
+				wires = append(wires, o.wire(a))
+				r.Count(fmt.Sprintf("B:%s:op%d:%s", a.name, o.kind, c))
+				input := map[string]any{"alg": a.name, "history": histDesc, "pool_hex": hexAll(pool)}
+
+				// ---- O: the statement, on the implementation ----
+				isChange := o.kind == kChangeUser || o.kind == kChangeOwner || o.kind == kSetPerms
+				if isChange && g.enc {
+					eff := o.opw
+					if eff == "" && !a.aes256() {
+						eff = o.upw
+					}
+					ownerOK := accepts(a, g.own, eff) && !(a.aes256() && o.opw == "")
+					if !ownerOK && err == nil {
+						r.OracleFail("change-without-owner", input, "operation succeeded although the owner slot does not match the current owner password")
+					} else {
+						r.OracleOK()
+					}
+				}
+				if err != nil && (c == "wrong-password" || c == "owner-required" || c == "validate") && len(out) != 0 {
+					r.OracleFail("error-produced-output", input, fmt.Sprintf("%d bytes written", len(out)))
+				}
+				if c == "panic" || strings.HasPrefix(codeOf(c), "X:") {
+					r.OracleFail("unexpected-error:"+c, input, fmt.Sprint(err))
+				}
+				if err == nil {
+					doc = out
+					g = g.after(o)
+				}
+				// probe matrix
+				probes := []string{}
+				for _, x := range pool {
+					for slot := 0; slot < 2; slot++ {
+						var op_ opener
+						if slot == 0 {
+							op_ = open(doc, x, "")
+						} else {
+							op_ = open(doc, "", x)
+						}
+						switch {
+						case op_.cls == "ok" && op_.plain:
+							probes = append(probes, "p")
+						case op_.cls == "ok":
+							probes = append(probes, "o")
+						default:
+							probes = append(probes, codeOf(op_.cls))
+						}
+						in2 := map[string]any{"alg": a.name, "history": histDesc, "candidate_hex": vh.Hex([]byte(x)), "slot": []string{"owner", "user"}[slot]}
+						if op_.cls == "ok" && !op_.content {
+							r.OracleFail("opened-without-content", in2, "page count / title differ")
+						}
+						if !g.enc {
+							continue
+						}
+						isCur := accepts(a, g.own, x) || accepts(a, g.usr, x)
+						userEmpty := accepts(a, g.usr, "")
+						if !isCur && !(slot == 0 && userEmpty) {
+							// neither current password: must be rejected, no content
+							if op_.cls == "ok" || !op_.ctxNil {
+								r.OracleFail("stale-or-wrong-password-opens", in2, "current owner="+vh.Hex([]byte(g.own))+" user="+vh.Hex([]byte(g.usr)))
+							} else if op_.cls != "wrong-password" && op_.cls != "validate" {
+								r.OracleFail("wrong-password-other-error", in2, op_.cls)
+							} else {
+								r.OracleOK()
+							}
+						}
+					}
+				}
+				// the current passwords open the document
+				if g.enc {
+					in3 := map[string]any{"alg": a.name, "history": histDesc}
+					if g.own != "" || !a.aes256() {
+						if o1 := open(doc, g.own, ""); o1.cls != "ok" || !o1.content {
+							in3["password_hex"] = vh.Hex([]byte(g.own))
+							r.OracleFail(selfRejectClass(a, g.own), in3, "current owner password does not open the document: "+o1.cls)
+						} else {
+							r.OracleOK()
+						}
+					}
+					if o2 := open(doc, "", g.usr); o2.cls != "ok" || !o2.content {
+						in3["password_hex"] = vh.Hex([]byte(g.usr))
+						r.OracleFail(selfRejectClass(a, g.usr), in3, "current user password does not open the document: "+o2.cls)
+					} else {
+						r.OracleOK()
+					}
+				} else if o3 := open(doc, "", ""); o3.cls != "ok" || !o3.plain || !o3.content {
+					r.OracleFail("plain-document-lost", map[string]any{"alg": a.name, "history": histDesc}, o3.cls)
+				}
+				implParts = append(implParts, codeOf(c)+"="+strings.Join(probes, ","))
+			}
+			// prep table for the model: the reader's preparation of every password of the pool
+			var tbl []string
+			for _, p := range pool {
+				pp, err := pdfcpu.VerifC24ProcessInput(p)
+				if err != nil {
+					tbl = append(tbl, vh.Hex([]byte(p))+":!")
+				} else {
+					tbl = append(tbl, vh.Hex([]byte(p))+":"+vh.Hex(pp))
+				}
+			}
+			r.Case("run", []string{strings.Join(tbl, ";"), strings.Join(hexAll(pool), ","), strings.Join(wires, ";")}, strings.Join(implParts, "|"))
+		}
+	}
+}
+
+func hexAll(l []string) []string {
+	o := make([]string, len(l))
+	for i, s := range l {
+		o[i] = vh.Hex([]byte(s))
+	}
+	return o
+}
+
+// ---------------------------------------------------------------- Part C
+
+func partC(r *vh.Run) {
+	dir, err := os.MkdirTemp("", "c25-files")
+	if err != nil {
+		panic(err)
+	}
+	defer os.RemoveAll(dir)
+	for _, a := range algs {
+		in := filepath.Join(dir, a.name+".pdf")
+		if err := os.WriteFile(in, minimalPDF(a.v20), 0o644); err != nil {
+			panic(err)
+		}
+		c := a.conf("own", "usr")
+		if err := guard(func() error { return api.EncryptFile(in, "", c) }); err != nil {
+			r.OracleFail("encrypt-failed", map[string]any{"alg": a.name, "api": "EncryptFile"}, err.Error())
+			continue
+		}
+		before, _ := os.ReadFile(in)
+		type fop struct {
+			name string
+			run  func(out string) error
+			ok   bool
+		}
+		nc := func(o, u string) *model.Configuration {
+			c := model.NewDefaultConfiguration()
+			c.OwnerPW, c.UserPW = o, u
+			return c
+		}
+		fops := []fop{
+			{"ChangeUserPasswordFile wrong owner", func(out string) error { return api.ChangeUserPasswordFile(in, out, "usr", "new", nc("bad", "")) }, false},
+			{"ChangeUserPasswordFile user as owner", func(out string) error { return api.ChangeUserPasswordFile(in, out, "usr", "new", nc("usr", "")) }, false},
+			{"ChangeUserPasswordFile wrong user", func(out string) error { return api.ChangeUserPasswordFile(in, out, "bad", "new", nc("own", "")) }, false},
+			{"ChangeOwnerPasswordFile wrong owner", func(out string) error { return api.ChangeOwnerPasswordFile(in, out, "bad", "new", nc("", "usr")) }, false},
+			{"ChangeOwnerPasswordFile user only", func(out string) error { return api.ChangeOwnerPasswordFile(in, out, "usr", "new", nc("", "usr")) }, false},
+			{"SetPermissionsFile wrong owner", func(out string) error { return api.SetPermissionsFile(in, out, nc("bad", "usr")) }, false},
+			{"SetPermissionsFile no owner", func(out string) error { return api.SetPermissionsFile(in, out, nc("", "usr")) }, false},
+			{"DecryptFile wrong", func(out string) error { return api.DecryptFile(in, out, nc("bad", "bad")) }, false},
+			{"DecryptFile none", func(out string) error { return api.DecryptFile(in, out, nc("", "")) }, false},
+			{"ChangeUserPasswordFile right", func(out string) error { return api.ChangeUserPasswordFile(in, out, "usr", "new", nc("own", "")) }, true},
+		}
+		for _, f := range fops {
+			for _, inplace := range []bool{false, true} {
+				out := filepath.Join(dir, "out.pdf")
+				os.Remove(out)
+				arg := out
+				if inplace {
+					arg = ""
+				}
+				if f.ok && inplace {
+					continue
+				}
+				err := guard(func() error { return f.run(arg) })
+				after, _ := os.ReadFile(in)
+				_, statErr := os.Stat(out)
+				input := map[string]any{"alg": a.name, "api": f.name, "inplace": inplace}
+				switch {
+				case f.ok && (err != nil || statErr != nil):
+					r.OracleFail("right-credentials-refused", input, fmt.Sprint(err))
+				case f.ok:
+					if o := open(mustRead(out), "", "new"); o.cls != "ok" {
+						r.OracleFail("new-password-rejected", input, o.cls)
+					} else if o := open(mustRead(out), "", "usr"); o.cls == "ok" {
+						r.OracleFail("stale-or-wrong-password-opens", input, "old user password still opens")
+					} else {
+						r.OracleOK()
+					}
+				case err == nil:
+					r.OracleFail("change-without-owner", input, "succeeded with wrong credentials")
+				case !bytes.Equal(before, after):
+					r.OracleFail("error-modified-input", input, cls(err))
+				case statErr == nil:
+					r.OracleFail("error-produced-output", input, cls(err))
+				default:
+					r.OracleOK()
+				}
+				r.Count("C:" + a.name + ":" + cls(err))
+				// leftovers (staging files) must not stay behind
+				ents, _ := os.ReadDir(dir)
+				for _, e := range ents {
+					if e.Name() != filepath.Base(in) && e.Name() != "out.pdf" && !strings.HasSuffix(e.Name(), ".pdf") {
+						r.OracleFail("staging-file-left-behind", input, e.Name())
+						os.Remove(filepath.Join(dir, e.Name()))
+					}
+				}
+			}
+		}
+	}
+}
+
+func mustRead(p string) []byte {
+	b, err := os.ReadFile(p)
+	if err != nil {
+		return nil
+	}
+	return b
+}
+
+func main() {
+	api.DisableConfigDir()
+	r := vh.Start("C25")
+	defer r.Finish()
+	partA(r)
+	partB(r)
+	partC(r)
 }
